@@ -2588,7 +2588,11 @@ class Head(Expr):
     def _simplify_up(self, parent, dependents):
         from dask.dataframe.dask_expr import Repartition
 
-        if isinstance(parent, Repartition) and parent.new_partitions == 1:
+        if (
+            isinstance(parent, Repartition)
+            and "new_partitions" in parent._parameters
+            and parent.new_partitions == 1
+        ):
             return self
 
     def _lower(self):
@@ -2696,7 +2700,11 @@ class Tail(Expr):
     def _simplify_up(self, parent, dependents):
         from dask.dataframe.dask_expr import Repartition
 
-        if isinstance(parent, Repartition) and parent.new_partitions == 1:
+        if (
+            isinstance(parent, Repartition)
+            and "new_partitions" in parent._parameters
+            and parent.new_partitions == 1
+        ):
             return self
 
     def _lower(self):
@@ -3557,7 +3565,11 @@ class MaybeAlignPartitions(Expr):
             or len(self.divisions) == 2
             and max(map(lambda x: len(x.divisions), dfs)) == 2
         ):
-            return self._expr_cls(*self.operands)
+            return self._expr_cls(
+                *_single_partition_common_divisions(
+                    self.operands, dfs, self.divisions
+                )
+            )
         elif self.divisions[0] is None:
             # We have to shuffle
             npartitions = max(df.npartitions for df in dfs)
@@ -3589,6 +3601,24 @@ class MaybeAlignPartitions(Expr):
     @functools.cached_property
     def _meta(self):
         return self._expr_cls(*self.operands)._meta
+
+
+def _single_partition_common_divisions(operands, dfs, divisions):
+    """Single-partition operands are combined by pandas inside one task, so
+    they are not repartitioned. Their (known) divisions may still differ, which
+    ``Blockwise._divisions`` rejects ("Mismatched divisions ..."): give all of
+    them the divisions of the aligned result."""
+    if all(dfs[0].divisions == df.divisions for df in dfs):
+        return list(operands)
+    names = {df._name for df in dfs}
+    return [
+        (
+            SetDivisions(op, tuple(divisions))
+            if isinstance(op, Expr) and op._name in names
+            else op
+        )
+        for op in operands
+    ]
 
 
 def _are_dtypes_shuffle_compatible(dtypes):
@@ -3737,7 +3767,10 @@ class OpAlignPartitions(MaybeAlignPartitions):
             or len(self.divisions) == 2
             and max(map(lambda x: len(x.divisions), dfs)) == 2
         ):
-            return self._op(self.frame, self.op, self.other, *self.operands[3:])
+            frame, other = _single_partition_common_divisions(
+                [self.frame, self.other], dfs, self.divisions
+            )
+            return self._op(frame, self.op, other, *self.operands[3:])
 
         from dask.dataframe.dask_expr._repartition import RepartitionDivisions
 
